@@ -8,6 +8,7 @@ import (
 	"golang.org/x/tools/go/ssa"
 
 	"jtverif/internal/absint"
+	"jtverif/internal/report"
 )
 
 func init() {
@@ -309,6 +310,7 @@ func runC16(c *Ctx) {
 	R.Rules["S.response-per-report"] = "a completion response (0x9212) is written only in answer to a control frame: every successful chunk step leaves a progress stage for which the read loop does not answer, so the response that follows a resend is the one computed for the next completion report, not a repeat of the previous retransmit list"
 	c.chunkStageStandalone("S.response-per-report")
 	R.Require("S.response-per-report", 1, "")
+	c.recordPerFile()
 	R.Explain = "Structural necessary conditions of the completion report, decided for all inputs: the sweep runs over the sorted slice, starts at 0, emits only non-empty wrap-free ranges; " +
 		"the handler stores the computed list on every path; the reply's flag/count/list agree with that list; the stage is Supplementary exactly when ranges are missing; " +
 		"0x9212 is read and written as (offset,length) u32 pairs at an 8-byte stride with the matching length equation. Exactness of the interval complement over all chunk sets is not decided."
@@ -573,4 +575,189 @@ func containsStr(xs []string, s string) bool {
 		}
 	}
 	return false
+}
+
+// recordPerFile (shared by C15 and C16): every file announced by a 0x1210 gets a progress record of its own, including
+// the two maps that hold what was received (offset -> length, offset -> bytes). A record assembled from a template
+// value shares the template's maps: chunks of one file then count as received ranges of its siblings.
+func (c *Ctx) recordPerFile() {
+	R := c.R
+	R.Rules["S.record-per-file"] = "every file record stored into the session's record table is an object created for that table entry, and each of its map fields (the received offsets and chunks) is a map made for that record (inside every loop that surrounds the store): no two files share a received-range map"
+	n := 0
+	for _, fn := range c.RepoFuncs("attachment") {
+		for _, b := range fn.Blocks {
+			for _, ins := range b.Instrs {
+				mu, isMU := ins.(*ssa.MapUpdate)
+				if !isMU {
+					continue
+				}
+				if _, f, ok := fieldLoad(mu.Map); !ok || f != "Record" {
+					continue
+				}
+				pn, isN := derefNamed(mu.Value.Type())
+				if !isN || pn != "Package" {
+					continue
+				}
+				key := fmt.Sprintf("%s / %s", shortFn(fn), c.constructOf(fn, mu))
+				if recordRestore(mu.Value, fn) {
+					// the record that was looked up in the table is put back: no new record
+					continue
+				}
+				n++
+				okF, why := c.freshPerEvaluation(mu.Value, mu)
+				if !okF {
+					R.Add("S.record-per-file", key, c.P.RelPos(mu.Pos()), report.Violated, "the stored record is not created for this entry: "+why)
+					continue
+				}
+				al, isAl := mu.Value.(*ssa.Alloc)
+				if !isAl {
+					// created by a constructor: its returns were checked to be fresh allocations; the fields are checked where the literal is
+					if call, isC := mu.Value.(*ssa.Call); isC && call.Call.StaticCallee() != nil {
+						okC, whyC := c.packageLiteralMapsFresh(call.Call.StaticCallee(), nil)
+						st := report.Discharged
+						if !okC {
+							st = report.Violated
+						}
+						R.Add("S.record-per-file", key, c.P.RelPos(mu.Pos()), st, whyC)
+						continue
+					}
+					R.Add("S.record-per-file", key, c.P.RelPos(mu.Pos()), report.Undecided, "the record is neither a literal nor the result of a constructor call")
+					continue
+				}
+				okM, whyM := c.allocMapsFresh(al, mu)
+				st := report.Discharged
+				if !okM {
+					st = report.Violated
+				}
+				R.Add("S.record-per-file", key, c.P.RelPos(mu.Pos()), st, whyM)
+			}
+		}
+	}
+	R.Notes["record_table_stores"] = n
+	R.Require("S.record-per-file", 1, "")
+}
+
+// allocMapsFresh: every map-typed field of the struct allocated at al is assigned a map made per evaluation of use, and
+// the struct is not filled by copying another struct value (which would bring that value's maps along) without the map
+// fields being replaced afterwards.
+func (c *Ctx) allocMapsFresh(al *ssa.Alloc, use ssa.Instruction) (bool, string) {
+	stt, isS := al.Type().Underlying().(*types.Pointer).Elem().Underlying().(*types.Struct)
+	if !isS {
+		return false, "not a struct"
+	}
+	assigned := map[string]bool{}
+	for _, ref := range *al.Referrers() {
+		switch x := ref.(type) {
+		case *ssa.FieldAddr:
+			f := stt.Field(x.Field)
+			if _, isMap := f.Type().Underlying().(*types.Map); !isMap {
+				continue
+			}
+			for _, r2 := range *x.Referrers() {
+				st, isSt := r2.(*ssa.Store)
+				if !isSt || st.Addr != ssa.Value(x) {
+					continue
+				}
+				if ok, why := c.freshPerEvaluation(st.Val, use); !ok {
+					return false, fmt.Sprintf("the map stored into %s is shared between records: %s", f.Name(), why)
+				}
+				assigned[f.Name()] = true
+			}
+		}
+	}
+	for i := 0; i < stt.NumFields(); i++ {
+		f := stt.Field(i)
+		if _, isMap := f.Type().Underlying().(*types.Map); !isMap || assigned[f.Name()] {
+			continue
+		}
+		// not assigned field by field: where does the struct's content come from?
+		for _, ref := range *al.Referrers() {
+			if st, isSt := ref.(*ssa.Store); isSt && st.Addr == ssa.Value(al) {
+				return false, fmt.Sprintf("the record is filled by copying a struct value at %s and its map %s is not replaced afterwards: the copy shares that map with every other record made from the same value (a chunk of one file is then recorded as received for its siblings)", c.P.RelPos(st.Pos()), f.Name())
+			}
+		}
+		return false, fmt.Sprintf("the map %s of the record is never made", f.Name())
+	}
+	return true, ""
+}
+
+// packageLiteralMapsFresh: a constructor all of whose returned allocations have per-call maps.
+func (c *Ctx) packageLiteralMapsFresh(fn *ssa.Function, _ ssa.Instruction) (bool, string) {
+	n := 0
+	for _, b := range fn.Blocks {
+		ret, isR := b.Instrs[len(b.Instrs)-1].(*ssa.Return)
+		if !isR || len(ret.Results) == 0 {
+			continue
+		}
+		al, isAl := ret.Results[0].(*ssa.Alloc)
+		if !isAl {
+			return false, "the constructor " + shortFn(fn) + " does not return a literal"
+		}
+		n++
+		if ok, why := c.allocMapsFresh(al, ret); !ok {
+			return false, why
+		}
+	}
+	if n == 0 {
+		return false, "the constructor " + shortFn(fn) + " has no return"
+	}
+	return true, ""
+}
+
+// recordRestore: v is a record taken out of a Record table by a lookup (possibly held in a local variable that a
+// deferred closure captured): storing it back creates nothing.
+func recordRestore(v ssa.Value, fn *ssa.Function) bool {
+	fromLookup := func(x ssa.Value) bool {
+		if ex, isEx := x.(*ssa.Extract); isEx {
+			x = ex.Tuple
+		}
+		lk, isLk := x.(*ssa.Lookup)
+		if !isLk {
+			return false
+		}
+		_, f, ok := fieldLoad(lk.X)
+		return ok && f == "Record"
+	}
+	if fromLookup(v) {
+		return true
+	}
+	u, isU := v.(*ssa.UnOp)
+	if !isU {
+		return false
+	}
+	var cell *ssa.Alloc
+	switch a := u.X.(type) {
+	case *ssa.Alloc:
+		cell = a
+	case *ssa.FreeVar:
+		if fn.Parent() == nil {
+			return false
+		}
+		idx := -1
+		for i, fv := range fn.FreeVars {
+			if fv == a {
+				idx = i
+			}
+		}
+		for _, b := range fn.Parent().Blocks {
+			for _, ins := range b.Instrs {
+				if mc, isMC := ins.(*ssa.MakeClosure); isMC && mc.Fn == ssa.Value(fn) && idx >= 0 && idx < len(mc.Bindings) {
+					cell, _ = mc.Bindings[idx].(*ssa.Alloc)
+				}
+			}
+		}
+	}
+	if cell == nil {
+		return false
+	}
+	n := 0
+	for _, ref := range *cell.Referrers() {
+		if st, isSt := ref.(*ssa.Store); isSt && st.Addr == ssa.Value(cell) {
+			n++
+			if !fromLookup(st.Val) {
+				return false
+			}
+		}
+	}
+	return n > 0
 }
